@@ -772,6 +772,9 @@ pub fn gen_family(rng: &mut Rng) -> (&'static str, Scenario) {
 
 /// Search schedules of `scn` for a violation of class `class`. Tries the old trace first.
 fn find_violation(scn: &Arc<Scenario>, class: &str, hint: &SchedSpec, rng: &mut Rng, tries: usize) -> Option<(SchedSpec, String)> {
+    if class == STUCK {
+        return stuck_message(scn).map(|m| (hint.clone(), m));
+    }
     let mut specs = vec![hint.clone()];
     let mut h2 = hint.clone();
     h2.replay = None;
@@ -940,8 +943,28 @@ pub fn check(tier: Tier) -> i32 {
     conclude(&rep, real, &hits)
 }
 
+const STUCK: &str = "never-terminates-after-all-others-finished";
+
+fn stuck_message(scn: &Arc<Scenario>) -> Option<String> {
+    if !nothing_to_wait_for(scn) {
+        return None;
+    }
+    let (order, at) = stuck_when_run_last(scn)?;
+    let (t, i) = order[at];
+    Some(format!("in the interleaving {order:?} every other thread has finished when thread {t} runs its transaction {i} ({:?}), which never returns: every vertex of the map has coordinates and no operation removes any, so nobody will ever write what it waits for", scn.threads[t][i].ops))
+}
+
+fn stuck_violation(scn: &Arc<Scenario>, family: &str, seed: u64, run: u64) -> Option<Violation> {
+    let message = stuck_message(scn)?;
+    let sched = SchedSpec { kind: SchedKind::Fair, seed: 0, early_wake_pm: 0, fair_after: u32::MAX, replay: None, steer_pm: 0 };
+    Some(Violation { property: "C07".into(), class: STUCK.into(), message, seed, run, payload: serde_json::to_value(Payload { family: family.into(), scenario: (**scn).clone(), sched }).unwrap(), known: None })
+}
+
 fn replay_verdict(v: &Violation) -> Option<(String, String)> {
     let p: Payload = serde_json::from_value(v.payload.clone()).ok()?;
+    if v.class == STUCK {
+        return stuck_message(&Arc::new(p.scenario)).map(|m| (STUCK.to_string(), m));
+    }
     let scn = Arc::new(p.scenario);
     let info = eval_run(&scn, &p.sched);
     match info.verdict {
@@ -968,6 +991,15 @@ fn run_scenario(i: u64, seed: u64, c: &mut Counters) -> Vec<Violation> {
     }
     if b > 0 {
         c.inc("scenarios_with_blocking_serial_order");
+        if nothing_to_wait_for(&scn) {
+            c.inc("scenarios_with_blocking_serial_order_and_nothing_to_wait_for");
+            if let Some(v) = stuck_violation(&scn, family, seed, i) {
+                if std::env::var("VERIF_DEBUG").is_ok() {
+                    eprintln!("STUCK {:?}", scn.threads.iter().map(|t| t.iter().map(|x| format!("{:?}", x.ops)).collect::<Vec<_>>()).collect::<Vec<_>>());
+                }
+                return vec![v];
+            }
+        }
     }
     let n_sched = 8 + rng.below(25);
     let mut est_len = 64u32;
@@ -1059,6 +1091,18 @@ pub fn replay(v: &Violation) -> i32 {
         }
     };
     let scn = Arc::new(p.scenario);
+    if v.class == STUCK {
+        return match stuck_message(&scn) {
+            Some(m) => {
+                println!("REPRODUCED property=C07 class={STUCK}: {m}");
+                1
+            }
+            None => {
+                println!("not reproduced");
+                0
+            }
+        };
+    }
     let info = eval_run(&scn, &p.sched);
     if info.sched.replay_diverged {
         println!("replay diverged from the recorded schedule");
